@@ -1,8 +1,8 @@
-\* (M) ideal keys: Fresh holds over all histories of 9 steps on 1 path
+\* (M) ideal keys: Fresh holds over all histories of 8 steps on 1 path
 CONSTANTS Paths = {1}
           NVersions = 3
           Modes = {0, 1, 2}
-          MaxActions = 9
+          MaxActions = 8
           KeyModel = 0
           VStep = {1, 2}
           WithX = TRUE
